@@ -159,7 +159,7 @@ static U32 putpath(U32 at, const char* hex) { return (U32)unhex(hex, mem->data +
 int main(int argc, char** argv) {
     FILE* sc; char line[70000]; const char* sandbox; int ai, nargs = 0, nenv = 0; char* wargv[64]; char* wenv[64];
     if (argc < 3) return 2;
-    obs = fdopen(dup(1), "w");
+    obs = fdopen(fcntl(1, F_DUPFD, 100), "w");      /* (far away from the numbers 0-2: a host started without one of its standard streams keeps that slot free) */
     if (!obs) return 2;
     sandbox = argv[1];
     for (ai = 3; ai < argc && strcmp(argv[ai], "--"); ai++) wargv[nargs++] = argv[ai];
